@@ -334,9 +334,18 @@ func (s Style) print(b *strings.Builder, n *Node, parentPrec int, right bool) {
 	case KStr:
 		b.WriteString(quote(n))
 	case KInt:
-		b.WriteString(strconv.FormatInt(n.I, 10))
+		if n.I < 0 {
+			// the language has no negative literals
+			b.WriteString("(0 - " + strconv.FormatInt(-n.I, 10) + ")")
+		} else {
+			b.WriteString(strconv.FormatInt(n.I, 10))
+		}
 	case KFloat:
-		b.WriteString(n.S)
+		if strings.HasPrefix(n.S, "-") {
+			b.WriteString("(0 - " + n.S[1:] + ")")
+		} else {
+			b.WriteString(n.S)
+		}
 	case KBool:
 		if n.B {
 			b.WriteString(s.word("true"))
